@@ -3,6 +3,6 @@
 d="$(readlink -f "$1")"; dir="/tmp/wt/port-$$"; mkdir -p /tmp/wt
 git -C /repo worktree add --detach "$dir" HEAD >/dev/null 2>&1
 if git -C "$dir" apply --check "$d" 2>/dev/null; then echo "applies cleanly"; else
-  if (cd "$dir" && patch -p1 --fuzz=3 < "$d" >/dev/null 2>&1); then (cd "$dir" && find . -name '*.orig' -delete; git diff) > "$d.ported" && mv "$d.ported" "$d" && echo "ported"; else echo "CANNOT PORT"; fi
+  if (cd "$dir" && patch -p1 --fuzz=3 --no-backup-if-mismatch < "$d" >/dev/null 2>&1); then (cd "$dir" && git diff) > "$d.ported" && mv "$d.ported" "$d" && echo "ported"; else echo "CANNOT PORT"; fi
 fi
 git -C /repo worktree remove --force "$dir"
